@@ -343,13 +343,20 @@ class Body:
             elif isinstance(pr, dict):
                 if "f" in pr:
                     # field of an aggregate we can see through
-                    if e.k == "agg" and e.args is not None and pr["f"] < len(e.args) and e.ak in ("tuple", "adt"):
+                    if e.k == "agg" and e.args is not None and pr["f"] < len(e.args) and e.ak in ("tuple", "adt", "closure"):
                         e = e.args[pr["f"]]
                     elif e.k == "bin" and e.op.endswith("WithOverflow") and pr["f"] == 0:
                         e = E("bin", op=e.op[:-len("WithOverflow")], a=e.a, b=e.b)
                     else:
                         e = E("field", a=e, name=pr.get("n"), idx=pr["f"], owner=pr.get("o"), variant=pr.get("v"))
                 elif "d" in pr:
+                    if e.k == "multi" and e.alts and all(a.k == "agg" and a.variant is not None for a in e.alts):
+                        # `(x as Ok).0` where x was assigned Ok(e1) on one path and Err(e2) on another (a helper's result):
+                        # the payload read here is e1
+                        sel = [a for a in e.alts if a.variant == pr.get("d")]
+                        if len(sel) == 1:
+                            e = sel[0]
+                            continue
                     e = E("downcast", a=e, variant=pr.get("d"), idx=pr.get("i"))
                 elif "ix" in pr:
                     e = E("index", a=e, b=self.local_expr(pr["ix"], depth + 1))
